@@ -391,7 +391,8 @@ PROPS["C17"] = {
             "Per (sender, target) the received sequence must equal the sent one (exactly once, in order, with the sender PID), replies must carry the request's token; afterwards Start on a running "
             "remote must fail harmlessly, Stop().Wait() twice must return, and a TCP dial to the address must be refused.  Unreachable episodes (3 in quick, 16 in thorough, in parallel): k messages "
             "to an address nobody listens on -> RemoteUnreachableEvent for it and exactly k DeadLetterEvents naming its stream writer; then the peer is started on that address and a later send must "
-            "arrive there (an extra dead letter instead = no fresh attempt).  Peer-restart episodes (6 in quick, 60 in thorough): node A talks to 8..32 peers over established connections "
+            "arrive there (an extra dead letter instead = no fresh attempt); every third episode runs both nodes WithTLS (the failing dial is tls.Dial); an ActorRestartedEvent for the router or a stream "
+            "writer before the RemoteUnreachableEvent = the attempt ended in a crash, and a process that does not survive the episodes is a violation whose replay is the journaled group of episodes.  Peer-restart episodes (6 in quick, 60 in thorough): node A talks to 8..32 peers over established connections "
             "(per-peer sequence closed by a marker), every peer's remote is stopped, A must publish RemoteUnreachableEvent per address and its stream writers unregister, new peers come up on the same "
             "addresses and what A sends then must arrive, once and in order; a DeadLetterEvent naming the old stream writer = no fresh attempt.  "
             "Non-trivial = >= 2 senders and >= 2 targets, or an unreachable / peer-restart episode.",
@@ -400,7 +401,7 @@ PROPS["C17"] = {
     "level_note": "loss shows only through a final marker that overtook a message; nothing arriving at all is a timeout = inconclusive; connection loss is generated only between conversations (peer stop / restart), not while messages are in flight",
     "assumptions": ENG_ASSUME + ["loopback ports come from a per-process block below the kernel's ephemeral range (10000 + (pid mod 110)*200 + k); the address of an unreachable peer is held by a bound, non-listening socket"],
     "legs": [rapid("flows", "net", "TestRemoteFlows", 60, 1200, shards=(2, 12)),
-             plain("unreach", "net", "TestUnreachable", timeout={"quick": 300, "thorough": 600}),
+             plain("unreach", "net", "TestUnreachable", timeout={"quick": 300, "thorough": 600}, death_is_violation=True),
              plain("restart", "net", "TestPeerRestart", timeout={"quick": 300, "thorough": 1200}),
              rapid("lifecycle", "net", "TestRemoteLifecycle", 60, 600, shards=(2, 8))],
 }
